@@ -351,6 +351,15 @@ func RunC17(c *Ctx) {
 			if !treeKeysCollide(marg) && !refmodel.EqTree(gotM, refmodel.CompatTree(snapM)) {
 				c.Rec.AddViolation(h.Violation{Property: c.Prop, Oracle: "StdLibCompatibleMap != replacement applied to every string and key", Entry: "StdLibCompatibleMap", Family: tc.Family, Desc: tc.Desc, Script: fmt.Sprintf("tree=%d", i), Expected: show(refmodel.CompatTree(snapM)), Observed: show(gotM), Seed: c.Seed, Tier: c.Tier})
 			}
+			// the caller appends to / fills the spare capacity of the slices it was given: they are its own, so
+			// nothing else in the result may change (seeded change C17r10-m1 cut every short array of a result
+			// from one block without limiting its capacity: append(res, x) overwrote the next array's element)
+			scribbleSpare(gotS)
+			scribbleSpare(gotM)
+			c.Rec.C("results_whose_spare_capacity_was_overwritten")
+			if !treeKeysCollide(arg) && !refmodel.EqTree(gotS, refmodel.CompatTree(snapS)) || !treeKeysCollide(marg) && !refmodel.EqTree(gotM, refmodel.CompatTree(snapM)) {
+				c.Rec.AddViolation(h.Violation{Property: c.Prop, Oracle: "a StdLibCompatibleSlice/Map result changed when the caller wrote into the spare capacity of the slices it was given (arrays of the result share a backing array)", Entry: "StdLibCompatibleSlice", Family: tc.Family, Desc: tc.Desc, Script: fmt.Sprintf("tree=%d", i), Expected: show(refmodel.CompatTree(snapS)), Observed: show(gotS), Seed: c.Seed, Tier: c.Tier})
+			}
 			// the results must not share mutable containers with the argument
 			scribble(gotS, 0)
 			scribble(gotM, 0)
@@ -358,6 +367,55 @@ func RunC17(c *Ctx) {
 				c.Rec.AddViolation(h.Violation{Property: c.Prop, Oracle: "modifying StdLibCompatibleSlice/Map's result changed the argument (shared containers)", Entry: "StdLibCompatibleSlice", Family: tc.Family, Desc: tc.Desc, Script: fmt.Sprintf("tree=%d", i), Expected: show(snapS), Observed: show(arg), Seed: c.Seed, Tier: c.Tier})
 			}
 		})
+	}
+	// sequences of long strings in one tree: converted lengths just below / at / above each power of two from
+	// 256 to 131,072, first one then another of the same or a neighbouring size class, then a short one (seeded
+	// change C17r10-m2: a per-call scratch whose contents are handed over as the result once they reach 16 KiB,
+	// and still used as scratch for the next string when building them did not reallocate)
+	{
+		lc := &h.Case{Family: "long-string-sequences"}
+		idx := 0
+		for k := 8; k <= 17; k++ {
+			for _, da := range []int{-2, -1, 0, 1} {
+				for _, kb := range []int{k - 1, k, k + 1} {
+					for _, db := range []int{-2, -1, 0, 1} {
+						idx++
+						if c.NShards > 1 && idx%c.NShards != c.Shard {
+							continue
+						}
+						mk := func(conv int, fill byte, where int) string {
+							raw := conv - 2 // one invalid byte becomes three
+							b := bytes.Repeat([]byte{fill}, raw)
+							b[[]int{0, raw / 2, raw - 1}[where%3]] = 0xff
+							return string(b)
+						}
+						first, second, third := mk(1<<k+da, 'a', idx), mk(1<<kb+db, 'b', idx/3), "third\xff"
+						lc.Desc = fmt.Sprintf("strings converting to %d, %d and 8 bytes in one tree", 1<<k+da, 1<<kb+db)
+						lc.Input = []byte(lc.Desc)
+						c.Rec.R.Cases++
+						c.Rec.R.Nontrivial++
+						c.Guarded(lc, "StdLibCompatibleSlice/Map (long strings)", func() {
+							args := []interface{}{
+								[]interface{}{first, second, third},
+								[]interface{}{[]interface{}{first}, map[string]interface{}{"k": second}, []interface{}{third, second}},
+								[]interface{}{map[string]interface{}{first: second}, third},
+							}
+							for ai, a := range args {
+								arg := a.([]interface{})
+								want := refmodel.CompatTree(arg)
+								got := rjson.StdLibCompatibleSlice(arg)
+								gotM := rjson.StdLibCompatibleMap(map[string]interface{}{"m": arg})
+								c.Rec.Evals(2)
+								c.Rec.C("long_string_sequences_converted")
+								if !refmodel.EqTree(got, want) || !refmodel.EqTree(gotM, map[string]interface{}{"m": want}) {
+									c.Rec.AddViolation(h.Violation{Property: c.Prop, Oracle: "StdLibCompatibleSlice/Map != replacement applied to every string and key (sequence of long strings in one tree)", Entry: "StdLibCompatibleSlice", Family: lc.Family, Desc: lc.Desc, Script: fmt.Sprintf("shape=%d", ai), Expected: "each string converted on its own", Observed: trunc(show(got)), Seed: c.Seed, Tier: c.Tier})
+								}
+							}
+						})
+					}
+				}
+			}
+		}
 	}
 	// very deep trees (the helpers have no depth limit of their own, unlike the decoders): a slice
 	// chain and a map chain of each depth with an invalid string / key at the bottom
